@@ -700,26 +700,45 @@ Example C16_get_dialog_ex :
   rmap snd (get_dialog msg_ab) = Ok (s2b "a-b-c@h-1-t-1-sip:alice@a-1.example.com-t-2-sip:bob@b-2.example.com:5060") /\
   rmap snd (get_dialog msg_ba) = Ok (s2b "a-b-c@h-1-t-1-sip:alice@a-1.example.com-t-2-sip:bob@b-2.example.com:5060").
 Proof. split; vm_compute; reflexivity. Qed.
-Example C16_get_dialog_raw_ex :   (* the hypotheses of C16_get_dialog_raw hold on msg_ab *)
-  exists hc cid hf sf f ht st t ftag ttag,
-    get_header (s2b "Call-ID") (m_headers msg_ab) = Some hc /\ h_val hc = HRaw cid /\
-    get_header (s2b "From") (m_headers msg_ab) = Some hf /\ h_val hf = HRaw sf /\ parse_fromto sf = Ok f /\
-    get_header (s2b "To") (m_headers msg_ab) = Some ht /\ h_val ht = HRaw st /\ parse_fromto st = Ok t /\
-    fromto_tag f = Some ftag /\ fromto_tag t = Some ttag /\ ftag = s2b "t-1" /\ ttag = s2b "t-2".
-Proof. do 10 eexists. vm_compute. repeat split. Qed.
+(* the hypotheses of C16_get_dialog_raw hold on msg_ab *)
+Example C16_get_dialog_raw_ex :
+  match get_header (s2b "Call-ID") (m_headers msg_ab), get_header (s2b "From") (m_headers msg_ab),
+        get_header (s2b "To") (m_headers msg_ab) with
+  | Some hc, Some hf, Some ht =>
+      match h_val hc, h_val hf, h_val ht with
+      | HRaw cid, HRaw sf, HRaw st =>
+          match parse_fromto sf, parse_fromto st with
+          | Ok f, Ok t => cid = s2b "a-b-c@h-1" /\ fromto_tag f = Some (s2b "t-1") /\ fromto_tag t = Some (s2b "t-2")
+          | _, _ => False
+          end
+      | _, _, _ => False
+      end
+  | _, _, _ => False
+  end.
+Proof. vm_compute. repeat split. Qed.
+(* the hypotheses of C16_no_tag_to hold on msg_notag, and indeed there is no dialog *)
 Example C16_no_tag_ex :
-  (exists m1 f m2 t, get_from msg_notag = Ok (m1, f) /\ get_to m1 = Ok (m2, t) /\ fromto_tag t = None) /\
-  get_dialog msg_notag = Err.
-Proof. split; [do 4 eexists|]; vm_compute; repeat split. Qed.
-Example C16_message_symmetric_ex :   (* the hypotheses of C16_message_symmetric hold on msg_ab / msg_ba *)
-  exists cid m1 f m2 t m1' f' m2' t',
-    get_call_id msg_ab = Ok cid /\ get_call_id msg_ba = Ok cid /\
-    get_from msg_ab = Ok (m1, f) /\ get_to m1 = Ok (m2, t) /\
-    get_from msg_ba = Ok (m1', f') /\ get_to m1' = Ok (m2', t') /\
-    fromto_tag f' = fromto_tag t /\ fromto_tag t' = fromto_tag f /\
-    dialog_addr (fromto_addr_spec f') = dialog_addr (fromto_addr_spec t) /\
-    dialog_addr (fromto_addr_spec t') = dialog_addr (fromto_addr_spec f).
-Proof. do 9 eexists. vm_compute. repeat split. Qed.
+  match get_from msg_notag with
+  | Ok (m1, f) => match get_to m1 with Ok (m2, t) => fromto_tag t = None | _ => False end
+  | _ => False
+  end /\ get_dialog msg_notag = Err.
+Proof. vm_compute. split; reflexivity. Qed.
+(* the hypotheses of C16_message_symmetric hold on msg_ab / msg_ba (the URI parameters differ) *)
+Example C16_message_symmetric_ex :
+  get_call_id msg_ab = get_call_id msg_ba /\ is_ok (get_call_id msg_ab) = true /\
+  match get_from msg_ab, get_from msg_ba with
+  | Ok (m1, f), Ok (m1', f') =>
+      match get_to m1, get_to m1' with
+      | Ok (m2, t), Ok (m2', t') =>
+          fromto_tag f' = fromto_tag t /\ fromto_tag t' = fromto_tag f /\
+          dialog_addr (fromto_addr_spec f') = dialog_addr (fromto_addr_spec t) /\
+          dialog_addr (fromto_addr_spec t') = dialog_addr (fromto_addr_spec f) /\
+          fromto_addr_spec t' <> fromto_addr_spec f
+      | _, _ => False
+      end
+  | _, _ => False
+  end.
+Proof. vm_compute. repeat split. intros H; discriminate H. Qed.
 
 (* ------------------------------------------------------------------ axiom audit *)
 Print Assumptions blt_trichotomy.
